@@ -23,7 +23,7 @@ def _with_switches(inner):
 
 
 REGISTRY["C23"] = _with_switches(rc_property(
-    "C23", quick=(16, 40), thorough=(600, 60),
+    "C23", quick=(12, 40), thorough=(500, 60),
     rule="case = one object and a list of operations from a fixed menu of OCCA_FUNCTIONs: (a) occa::array<int|float|double> of "
          "length 0..70 (biased to 0,1,2 and tile*k-1, tile*k, tile*k+1, 2*tile*k+1) with setTileSize(s) / setTileSize(s,k), "
          "s in {1,2,3,4,7,16}, k in 1..4, then 1-6 of map (5 functions, all 3 overloads), mapTo (shorter/equal/longer output), "
